@@ -1,8 +1,114 @@
 import DarkluaModel.Util.Sexp
-/-! Line-protocol handlers for property C15 (stub: nothing modelled yet). -/
+import DarkluaModel.C15.Model
+/-! Line-protocol handlers for property C15.
+
+Wire format. A path/name argument is the hex of its bytes (`x2e2f61` = `./a`); the driver
+parses it with the model's `components`. A path answer is structured: components separated
+by `,` — `R` root, `C` `.`, `P` `..`, `N<hex>` a normal name — or `-` for the empty path.
+Maps are `-` (empty) or `name=path,…` (hex both); `none` for an absent `.luaurc`.
+File systems are `-` or a `,`-separated list of hex paths (the files that exist).
+-/
 namespace DarkluaModel.C15
 
-def handle (op : String) (_args : List String) : String :=
-  "unknown-op " ++ op
+def hexToChars? (s : String) : Option (List Char) :=
+  (hexToBytes? s).map (·.map fun b => Char.ofNat b.toNat)
+
+def charsToHex (cs : List Char) : String :=
+  bytesToHex (cs.map fun c => UInt8.ofNat c.toNat)
+
+def compWire : Comp → String
+  | .root => "R"
+  | .cur => "C"
+  | .parent => "P"
+  | .normal s => "N" ++ (charsToHex s).drop 1
+
+def pathWire (p : Path) : String :=
+  if p.isEmpty then "-" else ",".intercalate (p.map compWire)
+
+def path? (s : String) : Option Path := (hexToChars? s).map components
+
+def list? {α} (f : String → Option α) (s : String) : Option (List α) :=
+  if s == "-" then some [] else (s.splitOn ",").mapM f
+
+def entry? (s : String) : Option (Name × Path) :=
+  match s.splitOn "=" with
+  | [k, v] => do
+    let k ← hexToChars? k
+    let v ← path? v
+    pure (k, v)
+  | _ => none
+
+def rc? (s : String) : Option (Option (List (Name × Path))) :=
+  if s == "none" then some none else (list? entry? s).map some
+
+def bool? (s : String) : Option Bool :=
+  if s == "1" then some true else if s == "0" then some false else none
+
+def findWire : Except FindErr Path → String
+  | .ok p => "ok " ++ pathWire p
+  | .error .emptyPath => "err empty"
+  | .error (.unknownSource n) => "err unknown " ++ charsToHex n
+  | .error (.notFound p) => "err notfound " ++ pathWire p
+
+def mode? (kind folder map : String) : Option Mode :=
+  match kind, hexToChars? folder, list? entry? map with
+  | "path", some folder, some map => some (.path ⟨folder, map, none⟩)
+  | "luau", some _, some map => some (.luau ⟨map, none⟩)
+  | _, _, _ => none
+
+def handle (op : String) (args : List String) : String :=
+  match op, args with
+  | "comps", [p] =>
+    match path? p with
+    | some p => pathWire p
+    | none => "bad-args"
+  | "norm", [k, p] =>
+    match bool? k, path? p with
+    | some k, some p => pathWire (normalize k p)
+    | _, _ => "bad-args"
+  | "H", [k, p] =>
+    match bool? k, path? p with
+    | some k, some p => toString (H15 k p)
+    | _, _ => "bad-args"
+  | "genp", [folder, sources, proj, found, current] =>
+    match hexToChars? folder, list? entry? sources, path? proj, path? found, path? current with
+    | some folder, some sources, some proj, some found, some current =>
+      charsToHex (generateRequirePath ⟨folder, sources, none⟩ proj found current)
+    | _, _, _, _, _ => "bad-args"
+  | "genl", [aliases, proj, found, current] =>
+    match list? entry? aliases, path? proj, path? found, path? current with
+    | some aliases, some proj, some found, some current =>
+      charsToHex (generateRequireLuau ⟨aliases, none⟩ proj found current)
+    | _, _, _, _ => "bad-args"
+  | "conv", [cur, curFolder, curMap, tgt, tgtFolder, tgtMap, proj, fs, source, req] =>
+    match mode? cur curFolder curMap, mode? tgt tgtFolder tgtMap, path? proj, list? path? fs, path? source, path? req with
+    | some c, some t, some proj, some fs, some source, some req =>
+      match convertRequire c t proj (memIsFile fs) req source with
+      | none => "none"
+      | some arg =>
+        "arg " ++ charsToHex arg ++ " found " ++ findWire (c.findCall proj (memIsFile fs) req source) ++
+          " hconv " ++ (match c.findCall proj (memIsFile fs) req source with
+            | .ok f => toString (HConv f) | .error _ => "-") ++
+          " again " ++ findWire (t.findCall proj (memIsFile fs) (components arg) source)
+    | _, _, _, _, _, _ => "bad-args"
+  | "HA", [p] =>
+    match path? p with
+    | some p => toString (HA p)
+    | none => "bad-args"
+  | "cands", [p, folder] =>
+    match path? p, hexToChars? folder with
+    | some p, some folder => ";".intercalate ((findRequirePaths p folder).map pathWire)
+    | _, _ => "bad-args"
+  | "findp", [folder, sources, rc, proj, fs, source, req] =>
+    match hexToChars? folder, list? entry? sources, rc? rc, path? proj, list? path? fs, path? source, path? req with
+    | some folder, some sources, some rc, some proj, some fs, some source, some req =>
+      findWire (pathLocatorFind ⟨folder, sources, rc⟩ proj (memIsFile fs) req source)
+    | _, _, _, _, _, _, _ => "bad-args"
+  | "findl", [aliases, rc, proj, fs, source, req] =>
+    match list? entry? aliases, rc? rc, path? proj, list? path? fs, path? source, path? req with
+    | some aliases, some rc, some proj, some fs, some source, some req =>
+      findWire (luauLocatorFind ⟨aliases, rc⟩ proj (memIsFile fs) req source)
+    | _, _, _, _, _, _ => "bad-args"
+  | _, _ => "unknown-op " ++ op
 
 end DarkluaModel.C15
